@@ -7,6 +7,7 @@
 -/
 import CosetProofs.ClaimsSpec
 import CosetProofs.Roundtrip.BuiltOther
+import CosetProofs.Cbor.Encodings
 namespace Coset.Props.C18
 open Coset
 
@@ -213,6 +214,14 @@ example : (fromSlice ClaimsSet.fromValue [0xa3, 0x01, 0x61, 0x69, 0x04, 0x1a, 0x
 example : (fromSlice CoseKdfContext.fromValue [0x84, 0x26, 0x83, 0xf6, 0xf6, 0xf6, 0x83, 0xf6, 0xf6, 0xf6, 0x82, 0x18, 0x80, 0x40]).isOk = true := by decide +kernel
 example : (fromSlice CoseKdfContext.fromValue [0x83, 0x26, 0x83, 0xf6, 0xf6, 0xf6, 0x83, 0xf6, 0xf6, 0xf6]).errKind? = some .unexpectedItem := by decide +kernel
 
+/-- claims sets and the KDF-context family on the bytes of *any* well-formed encoding of an item: the byte-level decoder gives what the
+    Value-level conversion gives on the item, so the iff theorems above hold for every encoding. -/
+theorem bytes_any_encoding (v : Value) (b : Bytes) (h : Spec.Encodes v b) (hd : Cbor.depthOf v ≤ Cbor.recursionLimit) :
+    fromSlice ClaimsSet.fromValue b = ClaimsSet.fromValue v ∧ fromSlice CoseKdfContext.fromValue b = CoseKdfContext.fromValue v ∧
+    fromSlice PartyInfo.fromValue b = PartyInfo.fromValue v ∧ fromSlice SuppPubInfo.fromValue b = SuppPubInfo.fromValue v :=
+  ⟨fromSlice_of_encodes _ v b h hd, fromSlice_of_encodes _ v b h hd, fromSlice_of_encodes _ v b h hd, fromSlice_of_encodes _ v b h hd⟩
+
+#print axioms bytes_any_encoding
 #print axioms fold_claimsOf
 #print axioms claims_accepted_is_wellformed
 #print axioms claims_wellformed_is_accepted
